@@ -40,6 +40,14 @@ def histories(rng, tier):
                         acts.insert(1, ("apply", ("h", rng.randrange(1, 1 << n))))
                     acts.append(("sample", c))
                     hs.append((rng.randrange(1 << 30), acts))
+    # registers with a past (grown, shrunk, regrown, multiplied, measured before): many small-count histograms each,
+    # so that both correction branches (deficit and surplus) are taken
+    def observe(r, n):
+        acts = [("dump",)]
+        for c in (0, 1, 1, 2, 3, 3, 5, 7, 7, 10, 101):
+            acts.append(("sample", c))
+        return acts
+    hs += regcheck.lifecycle_histories(rng, tier, observe)
     return hs
 
 
